@@ -245,8 +245,9 @@ def dtype_args_are_types(term):
     def ok(a):
         if M.is_typeref(a):
             return True
+        # (a None item of a membership list stays None under the type pre-processor: "a str or nothing")
         return (term.get("fn") in ("in_", "not_in", "in") and type(a) is list
-                and all(M.is_typeref(i) for i in a))
+                and all(M.is_typeref(i) or i is None for i in a) and any(M.is_typeref(i) for i in a))
     if term["c"] != "leaf":
         return all(dtype_args_are_types(term[k]) for k in ("a", "b")) if term["c"] != "null" else True
     if term.get("pre") != "dtype":
